@@ -1,7 +1,7 @@
-import Driver.Util
-/- Sub-protocol `C06`: not built yet. -/
+import Driver.Machine
+/- Sub-protocol `C06`: the machine protocol (see Driver/Machine.lean). -/
 namespace Driver.C06
 
-def proto : Driver.Proto := { σ := Unit, init := (), handle := fun s _ => (s, "unimplemented") }
+def proto : Driver.Proto := Driver.Machine.proto
 
 end Driver.C06
